@@ -98,6 +98,21 @@ impl C17 {
             let at = *rng.pick(&[0x1000u64, 0x2000, 0x3000, 0x8000, 0x10000, 0x20000]);
             let _ = call(|| ax.mem_init_zero(at, *rng.pick(&[0x10u64, 0x1000, 0x8000])));
         }
+        // empty areas (they own no byte) where strings and the frame are going to be placed
+        for _ in 0..rng.below(4) {
+            let at = match rng.below(4) {
+                0 => 0x1000 + rng.below(0x40),
+                1 => 0x1000 + rng.below(0x3000),
+                2 => 0x1000 * (1 << rng.below(8)) + 8 * rng.below(0x400),
+                _ => *rng.pick(&[0x1001u64, 0x1008, 0x2000, 0x2ff8, 0x3ff0, 0x4000]),
+            };
+            let _ = call(|| ax.mem_init_zero(at, 0));
+        }
+        // the most recently created area lies in the upper half of the address space (a vsyscall-style page)
+        if rng.below(5) == 0 {
+            let at = *rng.pick(&[0xffff_ffff_ff60_0000u64, 0x8000_0000_0000_0000, 0x7fff_ffff_ffff_f000, 0xffff_ffff_ffff_f000]);
+            let _ = call(|| ax.mem_init_zero(at, *rng.pick(&[0x1000u64, 0x10, 0])));
+        }
         let argv = gen_list(rng, self.tier);
         let envp = gen_list(rng, self.tier);
         let size = *rng.pick(&[0u64, 8, 16, 24, 0x100, 0x1000, 0x1000, 0x10000, 0x10000, 4097, 0x20000, 33]);
